@@ -570,6 +570,40 @@ func DrawBigFrame(t *rapid.T, minRows, maxRows int) *FrameSpec {
 	return fs
 }
 
+// DrawGiantFrame draws a frame beyond the row counts at which an
+// implementation may switch strategy (8192, 16384, 32768 rows; thousands of
+// groups): an int column of high cardinality, a string column of few values
+// with nulls, a float column of few values and the hidden unique id.
+func DrawGiantFrame(t *rapid.T) *FrameSpec {
+	band := rapid.IntRange(0, 9).Draw(t, "giantband")
+	lo := 8193
+	if band >= 5 {
+		lo = 16385
+	}
+	if band >= 8 {
+		lo = 32769
+	}
+	n := lo + rapid.IntRange(0, 700).Draw(t, "giantextra")
+	r := core.NewSplitMix(rapid.Uint64().Draw(t, "giantkey"))
+	fs := &FrameSpec{NRows: n}
+	a := ColSpec{Name: "c0", Type: "int", Ints: make([]int, n)}
+	b := ColSpec{Name: "c1", Type: "string", Strs: make([]*string, n)}
+	c := ColSpec{Name: "c2", Type: "float", Floats: make([]float64, n)}
+	id := ColSpec{Name: "__id", Type: "int", Ints: make([]int, n)}
+	card := 2100 + r.Intn(3000)
+	for i := 0; i < n; i++ {
+		a.Ints[i] = r.Intn(card) - card/2
+		if r.Intn(9) != 0 {
+			s := []string{"", "a", "b", "ab", "A", "abc"}[r.Intn(6)]
+			b.Strs[i] = &s
+		}
+		c.Floats[i] = []float64{0, math.Copysign(0, -1), 1, 1.5, -1, nanA}[r.Intn(6)]
+		id.Ints[i] = i
+	}
+	fs.Cols = []ColSpec{a, b, c, id}
+	return fs
+}
+
 // DrawStressFrame is a frame of one float column with 64..256 values from
 // StressFloats (and the row number): one simulated run carries hundreds of
 // floats through the writer and the reader.
